@@ -40,9 +40,9 @@ def optnat(n):
 def render(cmd, a):
     """Coq term (a string expression) for one driver request, or None if unsupported"""
     try:
-        if cmd in ("greedy", "roundrobin"):
+        if cmd in ("greedy", "roundrobin", "bidir"):
             keep, k, ns, vs = a
-            return f"show_bins ({cmd} vof {b(keep)} {nat(k)} {items(ns, vs)})"
+            return f"show_bins ({'bidirectional_balanced' if cmd == 'bidir' else cmd} vof {b(keep)} {nat(k)} {items(ns, vs)})"
         if cmd in ("ff", "ffd", "bf", "bfd"):
             keep, c, ns, vs = a
             f = {"ff": "first_fit", "ffd": "first_fit_decreasing", "bf": "best_fit", "bfd": "best_fit_decreasing"}[cmd]
@@ -100,7 +100,7 @@ def render(cmd, a):
 
 
 HEADER = """From Coq Require Import ZArith List String.
-From Prtpy Require Import Base.Prelude Model.Binner Model.Objectives Model.Greedy Model.Packing Model.Covering Model.KK Model.CG Model.DP
+From Prtpy Require Import Base.Prelude Model.Binner Model.Objectives Model.Greedy Model.Balanced Model.Packing Model.Covering Model.KK Model.CG Model.DP
   Model.CBLDM Model.SNP Model.BinCompletion Model.BinCompletionNamed Model.Multifit Oracle.Reach Show.
 Import ListNotations.
 Open Scope Z_scope.
